@@ -1177,13 +1177,35 @@ class Interp:
                 return v[1] if isinstance(v, tuple) and len(v) == 2 and v[0] == 'int' else None
             if pl[0] == 'len' and pl[1] in st.maps:
                 return st.maps[pl[1]].len
+            if pl[0] in ('rs', 're'):
+                try:
+                    r = self.load(st, pl[1], quiet=True)
+                except Exception:
+                    return None
+                if isinstance(r, tuple) and r and r[0] == 'adt' and r[1] == RANGE and len(r[3]) == 2:
+                    x = r[3][0 if pl[0] == 'rs' else 1]
+                    return x[1] if x[0] == 'int' else None
             return None
         for h, l, d in st.aux:
-            if isinstance(d, int):
-                continue
             vh, vl = val(h), val(l)
-            if vh is not None and vl is not None and z.entails_eq(vl, 0):
+            if vh is None or vl is None:
+                continue
+            if isinstance(d, int):
+                if d == 0:
+                    z.add_eq(vh, vl)
+                continue
+            if z.entails_eq(vl, 0):
                 z.add_eq(d, vh)
+            if z.entails_eq(d, 0):
+                z.add_eq(vh, vl)
+            elif z.entails_eq(vh, vl):
+                z.add_eq(d, 0)
+                # (differences that are known equal to this one vanish with it)
+        for h, l, d in st.aux:
+            if not isinstance(d, int) and z.sat and z.entails_eq(d, 0):
+                vh, vl = val(h), val(l)
+                if vh is not None and vl is not None:
+                    z.add_eq(vh, vl)
 
     def miss_complete(self, st, mid, upto=None):
         """-> key tag for which the whole live prefix [0, upto) was compared with answer "no"
